@@ -54,6 +54,7 @@ type workerOut struct {
 	Assumptions []string      `json:"assumptions"`
 	Shard       int           `json:"shard"`
 	HasRace     bool          `json:"has_race"`
+	HasArch32   bool          `json:"has_arch32"`
 	WallS       float64       `json:"wall_s"`
 	Stats       explore.Stats `json:"stats"`
 }
@@ -281,6 +282,59 @@ func racePass(work, id, tier string, seed int) (int, map[string]string, string) 
 	return iters, reports, ""
 }
 
+// arch32Pass builds the worker for GOARCH=386 and runs the directly enumerated part of
+// the property in it: the same inputs, decided where int has 32 bits. Scheduler units are
+// left out (their frames ask a 32-bit address space for more than it has).
+func arch32Pass(work, id, tier, replayDir string, shards int) *explore.Stats {
+	bin := filepath.Join(work, "vworker.386")
+	cmd := exec.Command("go", "build", "-overlay", filepath.Join(work, "overlay.json"), "-o", bin, "./cmd/vworker")
+	cmd.Dir = verifDir
+	cmd.Env = append(goEnv(), "GOARCH=386", "CGO_ENABLED=0")
+	if out, err := cmd.CombinedOutput(); err != nil {
+		die("building the GOARCH=386 worker failed: %v\n%s", err, out)
+	}
+	outs := make([]*workerOut, shards)
+	errs := make([]string, shards)
+	var wg sync.WaitGroup
+	for i := 0; i < shards; i++ {
+		wg.Add(1)
+		go func(i int) {
+			defer wg.Done()
+			of := filepath.Join(work, fmt.Sprintf("arch32-shard%d.json", i))
+			c := exec.Command(bin, "-prop", id, "-tier", tier, "-shard", strconv.Itoa(i), "-nshards", strconv.Itoa(shards),
+				"-out", of, "-replaydir", replayDir, "-directonly", "-rlimit-as", "0")
+			c.Env = append(os.Environ(), "GOMAXPROCS=1", "GOTRACEBACK=single")
+			if out, err := c.CombinedOutput(); err != nil {
+				errs[i] = fmt.Sprintf("GOARCH=386 worker %d: %v\n%s", i, err, tail(string(out), 3000))
+				return
+			}
+			raw, err := os.ReadFile(of)
+			if err != nil {
+				errs[i] = err.Error()
+				return
+			}
+			var o workerOut
+			if err := json.Unmarshal(raw, &o); err != nil {
+				errs[i] = "bad GOARCH=386 worker output: " + err.Error()
+				return
+			}
+			outs[i] = &o
+		}(i)
+	}
+	wg.Wait()
+	for _, e := range errs {
+		if e != "" {
+			die("%s", e)
+		}
+	}
+	var m explore.Stats
+	m.BoundCompleted = 1 << 30
+	for _, o := range outs {
+		explore.Merge(&m, &o.Stats)
+	}
+	return &m
+}
+
 func tail(s string, n int) string {
 	if len(s) > n {
 		return s[:n]
@@ -333,6 +387,16 @@ func main() {
 	tBuild := time.Since(t0)
 
 	if *replay != "" {
+		if strings.Contains(*replay, "arch32") {
+			// recorded by the GOARCH=386 pass: replay it where it was found
+			bin = filepath.Join(work, "vworker.386")
+			b := exec.Command("go", "build", "-overlay", filepath.Join(work, "overlay.json"), "-o", bin, "./cmd/vworker")
+			b.Dir = verifDir
+			b.Env = append(goEnv(), "GOARCH=386", "CGO_ENABLED=0")
+			if out, err := b.CombinedOutput(); err != nil {
+				die("building the GOARCH=386 worker failed: %v\n%s", err, out)
+			}
+		}
 		cmd := exec.Command(bin, "-prop", id, "-replay", *replay)
 		cmd.Stdout, cmd.Stderr = os.Stdout, os.Stderr
 		cmd.Env = append(os.Environ(), "GOMAXPROCS=2")
@@ -437,6 +501,28 @@ func main() {
 			add("data-race: "+k, v)
 		}
 	}
+	arch32Execs := int64(-1)
+	if meta.HasArch32 {
+		m := arch32Pass(work, id, *tier, filepath.Join(replayDir, "arch32"), *shards)
+		arch32Execs = m.Executions
+		if merged.ClassCounts == nil {
+			merged.ClassCounts = map[string]int64{}
+		}
+		for k, n := range m.ClassCounts {
+			merged.ClassCounts["GOARCH=386: "+k] += n
+		}
+		for _, v := range m.Violations {
+			v.Unit = "GOARCH=386 " + v.Unit
+			v.Class = "GOARCH=386: " + v.Class
+			merged.Violations = append(merged.Violations, v)
+		}
+		for _, e := range m.HarnessErrors {
+			merged.HarnessErrors = append(merged.HarnessErrors, "GOARCH=386: "+e)
+		}
+		if m.TimedOut {
+			merged.TimedOut = true
+		}
+	}
 	if len(merged.HarnessErrors) > 0 {
 		for _, e := range merged.HarnessErrors {
 			fmt.Fprintln(os.Stderr, "vcheck: HARNESS ERROR:", e)
@@ -510,6 +596,10 @@ func main() {
 	if raceIters >= 0 {
 		cov["race_pass"] = map[string]any{"iterations": raceIters, "exhaustive": false,
 			"note": "separate free-running -race run of the same client code (sampling, not part of the exhaustive claim)"}
+	}
+	if arch32Execs >= 0 {
+		cov["goarch_386_pass"] = map[string]any{"executions": arch32Execs, "exhaustive": !merged.TimedOut,
+			"note": "the directly enumerated inputs decided a second time in a worker built for GOARCH=386 (int has 32 bits); not added to the counts above"}
 	}
 	if len(merged.Outcomes) <= 40 {
 		cov["outcomes"] = merged.Outcomes
